@@ -7,7 +7,7 @@ dropping of Procedure objects.  Every call the API makes into exo.core.proc_eqv 
 wrapping the names API.py / LoopIR_scheduling.py imported (no hook in /repo) and written out as a
 job in the language of coq/Eqv/driver.ml, together with the answers the real module gave.
 
-  python c11_api.py SEED NSCRIPTS NACTIONS
+  python c11_api.py SEED NSCRIPTS NACTIONS [ID-PREFIX]
 output per script:   job <id> <items...>      tok <id> <tokens...>     act <id> <json>
                      !shape <id> <json>       (an API action recorded unexpected events)
 """
@@ -146,6 +146,20 @@ def install():
                                lambda a, b, cs=frozenset(): ["check", REC.p(a), REC.p(b), REC.K(cs)])
     LS.get_strictest_eqv_proc = _wrap("get_strictest_eqv_proc",
                                       lambda a, b: ["strictest", REC.p(a), REC.p(b)])
+    # the mod-set a configuration rewrite returns must be the one derive_proc records
+    for name in ("DoBindConfig", "DoConfigWrite", "DoDeleteConfig", "DoCallSwap"):
+        setattr(LS, name, _wrap_cfg(getattr(LS, name)))
+
+
+LAST_CFG = [None]
+
+
+def _wrap_cfg(f):
+    def w(*a, **kw):
+        r = f(*a, **kw)
+        LAST_CFG[0] = set(r[2])
+        return r
+    return w
 
 
 def callee_name(p):
@@ -212,7 +226,11 @@ def script(sid, rng, nactions):
             _, a, b = what
             ok = bool(mut) and all(m[0] == "derive" for m in mut) and mut[0][1] == a and mut[-1][2] == b \
                 and all(mut[i][2] == mut[i + 1][1] for i in range(len(mut) - 1))
-            what = ["chain", a, b]
+            # recorded mod-set = the set the rewrite returned (empty for rename/simplify)
+            cfg = sorted(REC.k(x) for x in (LAST_CFG[0] or ()))
+            rec_cfg = sorted({k for m in mut for k in m[3]}) if ok else None
+            ok = ok and rec_cfg == cfg
+            what = ["chain", a, b, cfg]
         else:
             ok = len(mut) == len(what) and all(m[:len(w)] == w for m, w in zip(mut, what))
         if not ok:
@@ -223,6 +241,7 @@ def script(sid, rng, nactions):
                            "call_eqv", "call_eqv", "call_eqv", "partial_eval", "add_assertion",
                            "is_eq", "drop"])
         n0 = len(REC.items)
+        LAST_CFG[0] = None
         name, p, fam = rng.choice(pool)
         desc = [kind, name]
         new = None
@@ -303,7 +322,8 @@ def script(sid, rng, nactions):
 
 if __name__ == "__main__":
     seed, nscripts, nactions = (int(x) for x in sys.argv[1:4])
+    prefix = sys.argv[4] if len(sys.argv) > 4 else "a"
     install()
     for i in range(nscripts):
-        script("a%d" % i, random.Random(seed * 1000003 + i), nactions)
+        script("%s%d" % (prefix, i), random.Random(seed * 1000003 + i), nactions)
         sys.stdout.flush()
